@@ -117,6 +117,7 @@ Enabled(e) ==
     [] e.op = "tick"     -> hist # <<>> /\ hist[Len(hist)].op # "tick" /\ cfg.dttl = "short"
     [] e.op = "evold"    -> hist # <<>> /\ hist[Len(hist)].op # "evold"
     [] e.op = "mreset"   -> hist # <<>> /\ hist[Len(hist)].op # "mreset"
+    [] e.op = "fcfg"     -> hist = <<>>          \* independent of everything else: once, in first position
     [] OTHER             -> TRUE
 
 Aux0(c) == IF Family = "keymut" THEN [slots |-> [s \in {1} |-> MkObj(KmStart(c.kt))], seen |-> {KmStart(c.kt)}]
